@@ -595,19 +595,6 @@ pub fn defining_bound(op: Op, a: &[Val], u: f64) -> Option<Jet<DD>> {
             let den = mul_val(&x2, x, kappa(Mul), u);
             apply_ref(Div, &[num, den], u).e
         }
-        Powf(p) if p != 0.0 && p != 1.0 && (p - 2.0).abs() >= 2.0 * u && !x.v.re().is_zero() => {
-            // general branch: x^(p-3) * x * x * x, evaluated in (nested) dual arithmetic
-            let q = smooth(Func::Powf(p - 3.0), x, kappa(Powf(p)), u);
-            let a1 = mul_val(&q, x, kappa(Mul), u);
-            let a2 = mul_val(&a1, x, kappa(Mul), u);
-            mul_val(&a2, x, kappa(Mul), u).e
-        }
-        Powi(n) if !(0..=2).contains(&n) && !x.v.re().is_zero() => {
-            let q = smooth(Func::Powi(n as i64 - 3), x, kappa(Powi(n)), u);
-            let a1 = mul_val(&q, x, kappa(Mul), u);
-            let a2 = mul_val(&a1, x, kappa(Mul), u);
-            mul_val(&a2, x, kappa(Mul), u).e
-        }
         BesselJ2 => {
             // 2 J1 / x - J0 away from the small-argument series
             if x.v.re().abs_dd().hi < 1e-5 {
